@@ -19,7 +19,8 @@
     canonical_dump(record, ...)        JSON-able, order-normalised description of everything a record holds:
                                        header, sequence, feature table as emitted by to_biopython() (multiset), the
                                        secmet features themselves (type, name, location) and the structure read
-                                       through the accessors (numbering, parents, children, gene functions, ...).
+                                       through the accessors (numbering, parents, children, gene functions, domain
+                                       attributes, modules, prepeptides, raw T2PKS values, ...).
                                        Two records are "the same" iff their dumps are equal.
     feature_table(bio_record, ...)     the sorted multiset [type, location, sorted qualifiers] of a SeqRecord
     location_text(location, ...)       canonical text of a Biopython/secmet location (fuzzy ends and strands kept)
@@ -30,7 +31,14 @@
     area_ties(record)                  kinds of areas (and "CDS") holding two members that compare equal under the
                                        record's own ordering (equal coordinates), e.g. ["protocluster"]
     area_order_conflicts(record)       kinds holding two members that each sort before the other
+    diff_dumps(first, second, limit=6) short JSON-able list of the places where two dumps (or any JSON values) differ
     spec_is_nontrivial(spec) / spec_classes(spec)   the measures used by C10
+
+    Users of other checks: some generated classes trip known C10 findings (see known/C10.json and notes/C10.md) -
+    `spec_classes(spec)` labels them: notes_added_to_noted_gene, function_description_with_colon, pfam_without_go,
+    prepeptide_reverse / prepeptide_span / prepeptide_partial_codon_or_fuzzy / prepeptide_no_subclass /
+    prepeptide_long_sequence, long_smiles, protocluster_sideloaded, *_equal_coordinates; `area_ties(record)` and
+    `area_order_conflicts(record)` tell whether the numbering of the built record is stable at all.
 
     Spec format (everything is plain JSON; coordinates are 0-based half-open; parts are in Biopython order):
       {"L": int, "circular": bool, "taxon": "bacteria"|"fungi", "seed": int,
@@ -50,7 +58,9 @@
        "protoclusters": [{"core": loc, "loc": loc, "product", "category", "cutoff", "nrange", "rule", "tool",
                           "sideloaded": bool, "extra": {key: [values]}, "t2pks": {...}|None}],
        "subregions": [{"loc", "tool", "label", "sideloaded": bool, "extra": {...}}],
-       "candidates": bool, "regions": bool}
+       "candidates": bool, "regions": bool, "candidate_extras": [[smiles|None, polymer|None], ...]}
+      (genes may also carry "explicit_codon_start": bool - write /codon_start=1 - and "short": 0|1 - the given
+      translation is that much shorter than the location, i.e. the location includes the stop codon)
 """
 
 from __future__ import annotations
